@@ -1,6 +1,7 @@
 package osutil
 
 import (
+	"errors"
 	"io"
 	"os"
 )
@@ -19,11 +20,28 @@ func CopyFile(srcPath, destPath string) (int64, error) {
 	}
 	defer src.Close()
 
-	dest, err := os.Create(destPath)
+	// open the target without truncating it first: if it is the source itself under
+	// another name (same path, symbolic or hard link), truncation would destroy the data.
+	dest, err := os.OpenFile(destPath, os.O_RDWR|os.O_CREATE, 0666)
 	if err != nil {
 		return 0, err
 	}
 	defer dest.Close()
+
+	srcInfo, err := src.Stat()
+	if err != nil {
+		return 0, err
+	}
+	destInfo, err := dest.Stat()
+	if err != nil {
+		return 0, err
+	}
+	if os.SameFile(srcInfo, destInfo) {
+		return 0, &os.PathError{Op: "copy", Path: destPath, Err: errors.New("source and target are the same file")}
+	}
+	if err = dest.Truncate(0); err != nil {
+		return 0, err
+	}
 
 	return io.Copy(dest, src)
 }
